@@ -61,7 +61,7 @@ def _is_dict_of_entity(ctx, fi, expr):
 
 
 @rule('SA-IDENT.key')
-@props('C02', 'C07')
+@props('C02', 'C07', 'C10')
 def keyident(ctx):
     obs = []
     nuses = 0
